@@ -19,8 +19,8 @@ def runW (w : Bits) (op : Json) : J (Except Err Bits) := do
       pure (.ok (writeBytes w b k))
   | "skip" => do let n ← asNat (← idx a 1); pure (skip w n)
   | "set" => do
-      let v ← asNat (← idx a 1); let n ← asNat (← idx a 2); let p ← asNat (← idx a 3)
-      pure (setUInt w v n p)
+      let v ← asInt (← idx a 1); let n ← asNat (← idx a 2); let p ← asNat (← idx a 3)
+      pure (setUIntZ w v n p)
   | _ => throw s!"bad write op {k}"
 
 def runR (bs : Bits) (op : Json) : J (Except Err (Json × Bits)) := do
